@@ -141,6 +141,30 @@ pub struct ExecOpts {
     pub custom_env: Vec<(String, String)>,
     /// points of these categories are taken at once (nothing else is offered while one is pending)
     pub urgent_cats: Vec<&'static str>,
+    /// scheduling constraints that make a rare situation reachable (exploration goes on around them)
+    pub holds: Vec<Hold>,
+}
+
+/// `actor` is not offered for its `nth` pass of `site` until `until_actor` has passed `until_site`
+/// `until_n` times (or has finished, or nothing else can move)
+#[derive(Clone, Debug)]
+pub struct Hold {
+    pub actor: String,
+    pub site: String,
+    pub nth: usize,
+    pub until_actor: String,
+    pub until_site: String,
+    pub until_n: usize,
+}
+pub fn parse_holds(v: &Value) -> Vec<Hold> {
+    v.as_array().map(|a| a.iter().map(|h| Hold {
+        actor: h["actor"].as_str().unwrap_or("").to_string(),
+        site: h["site"].as_str().unwrap_or("").to_string(),
+        nth: h["nth"].as_u64().unwrap_or(1) as usize,
+        until_actor: h["until_actor"].as_str().unwrap_or("").to_string(),
+        until_site: h["until_site"].as_str().unwrap_or("").to_string(),
+        until_n: h["until_n"].as_u64().unwrap_or(1) as usize,
+    }).collect()).unwrap_or_default()
 }
 
 impl Default for ExecOpts {
@@ -157,6 +181,7 @@ impl Default for ExecOpts {
             timer_actor: None,
             custom_env: vec![],
             urgent_cats: vec![],
+            holds: vec![],
         }
     }
 }
@@ -243,6 +268,11 @@ pub fn execute(
     // spin detection: an actor that keeps coming back to the same point while nobody else moved
     let mut prev_pt: Vec<Option<(&'static str, usize)>> = vec![None; names.len()];
     let mut same_cnt: Vec<usize> = vec![0; names.len()];
+    // the points an actor has passed since anybody else moved: coming back to one of them for the third
+    // time means it is waiting for someone else (spin loops longer than one point)
+    let mut solo: Vec<std::collections::HashMap<(&'static str, usize), usize>> = vec![Default::default(); names.len()];
+    // how often each actor has passed each site (for `holds`)
+    let mut passes: Vec<std::collections::HashMap<&'static str, usize>> = vec![Default::default(); names.len()];
     let mut spin_rounds = 0usize;
     let mut idle_loops = 0usize;
     let end;
@@ -270,7 +300,7 @@ pub fn execute(
         // actors that are spinning (waiting for someone else) are not offered until someone else moved
         let mut ready: Vec<(usize, PointInfo)> = ready_all
             .iter()
-            .filter(|(i, p)| !(same_cnt[*i] >= 2 && prev_pt[*i] == Some((p.site, p.obj))))
+            .filter(|(i, p)| !(same_cnt[*i] >= 2 && prev_pt[*i] == Some((p.site, p.obj))) && solo[*i].get(&(p.site, p.obj)).copied().unwrap_or(0) < 3)
             .cloned()
             .collect();
         // a coroutine actor is not offered while the kernel side of its previous yield is still at work
@@ -287,7 +317,30 @@ pub fn execute(
             for c in same_cnt.iter_mut() {
                 *c = 0;
             }
+            for m in solo.iter_mut() {
+                m.clear();
+            }
             ready = ready_all.clone();
+        }
+        if !opts.holds.is_empty() {
+            let before_holds = ready.clone();
+            ready.retain(|(i, p)| {
+                !opts.holds.iter().any(|h| {
+                    names[*i] == h.actor && p.site == h.site && passes[*i].get(p.site).copied().unwrap_or(0) + 1 == h.nth && {
+                        let u = names.iter().position(|n| *n == h.until_actor);
+                        match u {
+                            Some(u) => {
+                                passes[u].get(h.until_site.as_str()).copied().unwrap_or(0) < h.until_n
+                                    && !matches!(ctl.actor_state(u).0, ASt::Finished(_))
+                            }
+                            None => false,
+                        }
+                    }
+                })
+            });
+            if ready.is_empty() {
+                ready = before_holds; // nothing else can move: the hold gives way
+            }
         }
         let urgent: Vec<(usize, PointInfo)> = ready.iter().filter(|(_, p)| opts.urgent_cats.contains(&crate::ctrl::cat_of(p.site))).cloned().collect();
         let has_urgent = !urgent.is_empty();
@@ -336,6 +389,20 @@ pub fn execute(
                         same_cnt[i] = 0;
                     }
                     prev_pt[i] = Some((p.site, p.obj));
+                    *solo[i].entry((p.site, p.obj)).or_insert(0) += 1;
+                    *passes[i].entry(p.site).or_insert(0) += 1;
+                    // in the lock-free queues only a write counts as progress for the others: two spinners
+                    // (loads and failing CASes) must not keep waking each other while the one they wait for starves
+                    let c = crate::ctrl::cat_of(p.site);
+                    let read_like = (c == "q" || c == "tl")
+                        && (p.site.ends_with("load") || p.site.ends_with(".cas") || p.site.contains(".load_") || p.site.ends_with(".spin") || p.site.ends_with(".check"));
+                    if !read_like {
+                        // (its own record too: an actor that writes is not spinning)
+                        spin_rounds = 0;
+                        for m in solo.iter_mut() {
+                            m.clear();
+                        }
+                    }
                     for j in 0..names.len() {
                         if j != i {
                             same_cnt[j] = 0;
@@ -350,6 +417,9 @@ pub fn execute(
                 schedule.push(Step::Env { what: what.clone(), arg: arg.clone() });
                 for c in same_cnt.iter_mut() {
                     *c = 0;
+                }
+                for m in solo.iter_mut() {
+                    m.clear();
                 }
                 ctl.log_env(&what, &arg, &names);
                 nsteps += 1;
